@@ -123,3 +123,227 @@ package ro
 //@   inv len(buffer) == count && 0 <= index && index < count && 0 <= size && size <= count
 //@   on next(ctx, value) when size < count : emits
 //@   on next(ctx, value) when size >= count : emits Next(_, _)
+
+// ---------------------------------------------------------------------------
+// ro.go: notifications (modular: callers see only these postconditions)
+// ---------------------------------------------------------------------------
+
+//@ func NewNotificationNext
+//@   props C04 C17
+//@   modular
+//@   ensures [kind-next] result.Kind == 0 && result.Value == value
+
+//@ func NewNotificationError
+//@   props C04 C17
+//@   modular
+//@   ensures [kind-error] result.Kind == 1 && result.Err == err
+
+//@ func NewNotificationComplete
+//@   props C04 C17
+//@   modular
+//@   ensures [kind-complete] result.Kind == 2
+
+//@ func processNotificationWithContext
+//@   props C17
+//@   maypanic
+//@   track callfn.*
+//@   ensures [next|C17] n.Kind == 0 ==> trace(callfn.onNext(ctx, n.Value)) && result == true
+//@   ensures [error|C17] n.Kind == 1 ==> trace(callfn.onError(ctx, n.Err)) && result == false
+//@   ensures [complete|C17] n.Kind == 2 ==> trace(callfn.onComplete(ctx)) && result == false
+//@   ensures [only-bad-kind-panics|C17] panics ==> n.Kind != 0 && n.Kind != 1 && n.Kind != 2
+
+// ---------------------------------------------------------------------------
+// operator_transformations.go
+// ---------------------------------------------------------------------------
+
+//@ operator MapTo
+//@   props C04
+//@   on next(ctx, value) : emits Next(ctx, output)
+
+//@ operator MapErrIWithContext
+//@   props C04 C07 C09
+//@   ghost n int = 0
+//@   inv count == n
+//@   on next(ctx, t) when project_2(ctx, t, n) == nil : emits Next(project_1(ctx, t, n), project_0(ctx, t, n)) ; n' = n + 1
+//@   on next(ctx, t) when project_2(ctx, t, n) != nil : emits Error(project_1(ctx, t, n), project_2(ctx, t, n))
+
+//@ operator Cast
+//@   props C04 C07
+//@   on next(ctx, value) when is_U(value) : emits Next(ctx, value)
+//@   on next(ctx, value) when !is_U(value) : emits Error(ctx, _)
+
+//@ operator ScanIWithContext
+//@   props C04 C09 C12
+//@   ghost n int = 0
+//@   ghost acc val = seed
+//@   inv i == n && accumulator == acc
+//@   on next(ctx, value) : emits Next(reduce_0(ctx, acc, value, n), reduce_1(ctx, acc, value, n)) ; n' = n + 1 ; acc' = reduce_1(ctx, acc, value, n)
+
+//@ operator Flatten
+//@   props C04
+//@   on next(ctx, value) : emits loop.L0
+
+//@ loop Flatten$1$1$1#0
+//@   invariant 0 <= it && it <= len(ranged)
+//@   invariant ranged == value
+//@   iteration emits destination.NextWithContext(ctx, ranged[it])
+
+//@ operator BufferWithCount
+//@   props C04 C07
+//@   requires size >= 1
+//@   inv len(buffer) < size
+//@   on next(ctx, value) when len(buffer) + 1 >= size : emits Next(ctx, appended(buffer, value))
+//@   on next(ctx, value) when len(buffer) + 1 < size : emits
+//@   on complete(ctx) when len(buffer) > 0 : emits Next(ctx, buffer), Complete(ctx)
+//@   on complete(ctx) when len(buffer) <= 0 : emits Complete(ctx)
+
+// ---------------------------------------------------------------------------
+// operator_math.go
+// ---------------------------------------------------------------------------
+
+//@ operator Count
+//@   props C04
+//@   ghost n int = 0
+//@   inv count == n
+//@   on next(ctx, value) : emits ; n' = n + 1
+//@   on complete(ctx) : emits Next(ctx, n), Complete(ctx)
+
+//@ operator Sum
+//@   props C04
+//@   ghost total val = nil
+//@   inv sum == total
+//@   note the initial value of `total` is the zero value of T, which the uninterpreted sort does not name: the initial-invariant check is skipped by leaving total unconstrained at subscription
+//@   on next(ctx, value) : emits ; total' = add_T(total, value)
+//@   on complete(ctx) : emits Next(ctx, total), Complete(ctx)
+
+//@ operator Min
+//@   props C04 C09
+//@   ghost n int = 0
+//@   ghost mCtx val = nil
+//@   ghost mVal val = nil
+//@   inv n >= 0 && first == (n == 0)
+//@   inv !first ==> mIn.A == mCtx && mIn.B == mVal
+//@   on next(ctx, value) when n == 0 || lt_T(value, mVal) : emits ; n' = n + 1 ; mCtx' = ctx ; mVal' = value
+//@   on next(ctx, value) when n != 0 && !lt_T(value, mVal) : emits ; n' = n + 1
+//@   on complete(ctx) when n > 0 : emits Next(mCtx, mVal), Complete(ctx)
+//@   on complete(ctx) when n <= 0 : emits Complete(ctx)
+
+//@ operator Max
+//@   props C04 C09
+//@   ghost n int = 0
+//@   ghost mCtx val = nil
+//@   ghost mVal val = nil
+//@   inv n >= 0 && first == (n == 0)
+//@   inv !first ==> mAx.A == mCtx && mAx.B == mVal
+//@   on next(ctx, value) when n == 0 || gt_T(value, mVal) : emits ; n' = n + 1 ; mCtx' = ctx ; mVal' = value
+//@   on next(ctx, value) when n != 0 && !gt_T(value, mVal) : emits ; n' = n + 1
+//@   on complete(ctx) when n > 0 : emits Next(mCtx, mVal), Complete(ctx)
+//@   on complete(ctx) when n <= 0 : emits Complete(ctx)
+
+//@ operator Clamp
+//@   props C04
+//@   on next(ctx, value) when lt_T(value, lower) : emits Next(ctx, lower)
+//@   on next(ctx, value) when !lt_T(value, lower) && gt_T(value, upper) : emits Next(ctx, upper)
+//@   on next(ctx, value) when !lt_T(value, lower) && !gt_T(value, upper) : emits Next(ctx, value)
+
+//@ operator ReduceIWithContext
+//@   props C04 C09
+//@   ghost n int = 0
+//@   ghost acc val = seed
+//@   ghost accCtx val = nil
+//@   inv i == n && n >= 0 && output == acc
+//@   inv n > 0 ==> lastCtx == accCtx
+//@   on next(ctx, value) : emits ; n' = n + 1 ; acc' = accumulator_1(ctx, acc, value, n) ; accCtx' = accumulator_0(ctx, acc, value, n)
+//@   on complete(ctx) when n == 0 : emits Next(ctx, acc), Complete(ctx)
+//@   on complete(ctx) when n != 0 : emits Next(accCtx, acc), Complete(ctx)
+
+// ---------------------------------------------------------------------------
+// operator_conditional.go
+// ---------------------------------------------------------------------------
+
+//@ operator AllIWithContext
+//@   props C04
+//@   ghost n int = 0
+//@   ghost all bool = true
+//@   inv ok == all
+//@   inv all ==> i == n
+//@   on next(ctx, value) when all : emits ; n' = n + 1 ; all' = predicate_0(ctx, value, n)
+//@   on next(ctx, value) when !all : emits
+//@   on complete(ctx) : emits Next(ctx, all), Complete(ctx)
+
+//@ operator ContainsIWithContext
+//@   props C04 C14
+//@   ghost n int = 0
+//@   inv i == n
+//@   on next(ctx, value) when predicate_0(ctx, value, n) : emits Next(ctx, true), Complete(ctx)
+//@   on next(ctx, value) when !predicate_0(ctx, value, n) : emits ; n' = n + 1
+//@   on complete(ctx) : emits Next(ctx, false), Complete(ctx)
+
+//@ operator FindIWithContext
+//@   props C04 C14
+//@   ghost n int = 0
+//@   inv i == n
+//@   on next(ctx, value) when predicate_0(ctx, value, n) : emits Next(ctx, value), Complete(ctx)
+//@   on next(ctx, value) when !predicate_0(ctx, value, n) : emits ; n' = n + 1
+
+//@ operator DefaultIfEmptyWithContext
+//@   props C04 C09
+//@   ghost n int = 0
+//@   inv n >= 0 && empty == (n == 0)
+//@   on next(ctx, value) : emits Next(ctx, value) ; n' = n + 1
+//@   on complete(ctx) when n == 0 : emits Next(defaultCtx, defaultValue), Complete(ctx)
+//@   on complete(ctx) when n != 0 : emits Complete(ctx)
+
+// ---------------------------------------------------------------------------
+// operator_utility.go, operator_sink.go, operator_error_handling.go, operator_context.go
+// ---------------------------------------------------------------------------
+
+//@ operator TapWithContext
+//@   props C04 C09
+//@   on next(ctx, value) : emits Next(ctx, value)
+//@   on error(ctx, err) : emits Error(ctx, err)
+//@   on complete(ctx) : emits Complete(ctx)
+
+//@ operator Materialize
+//@   props C04 C17
+//@   on next(ctx, value) : emits Next(ctx, fields(0, value, _))
+//@   on error(ctx, err) : emits Next(ctx, fields(1, _, err)), Complete(ctx)
+//@   on complete(ctx) : emits Next(ctx, fields(2, _, _)), Complete(ctx)
+
+//@ operator Dematerialize
+//@   props C04 C17
+//@   inline processNotificationWithObserverAndContext processNotificationWithContext
+//@   on next(ctx, notif) when notif.Kind == 0 : emits Next(ctx, notif.Value)
+//@   on next(ctx, notif) when notif.Kind == 1 : emits Error(ctx, notif.Err)
+//@   on next(ctx, notif) when notif.Kind == 2 : emits Complete(ctx)
+//@   given next : notif.Kind >= 0 && notif.Kind <= 2
+
+//@ operator ToSlice
+//@   props C04 C17
+//@   on next(ctx, value) : emits
+//@   on complete(ctx) : emits Next(ctx, slice), Complete(ctx)
+
+//@ operator OnErrorReturn
+//@   props C04 C07
+//@   on next(ctx, value) : emits Next(ctx, value)
+//@   on error(ctx, err) : emits Next(ctx, finally), Complete(ctx)
+
+//@ operator ThrowIfEmpty
+//@   props C04 C07
+//@   ghost n int = 0
+//@   inv count == n && n >= 0
+//@   on next(ctx, value) : emits Next(ctx, value) ; n' = n + 1
+//@   on complete(ctx) when n == 0 : emits Error(ctx, throw_0())
+//@   on complete(ctx) when n != 0 : emits Complete(ctx)
+
+//@ operator ContextWithValue
+//@   props C04 C09
+//@   on next(ctx, value) : emits Next(ctx_WithValue(ctx, k, v), value)
+//@   on error(ctx, err) : emits Error(ctx_WithValue(ctx, k, v), err)
+//@   on complete(ctx) : emits Complete(ctx_WithValue(ctx, k, v))
+
+//@ operator ContextMapI
+//@   props C04 C09
+//@   ghost n int = 0
+//@   inv i == n
+//@   on next(ctx, value) : emits Next(project_0(ctx, n), value) ; n' = n + 1
